@@ -11,6 +11,7 @@ import (
 	"fmt"
 	"os"
 	"strconv"
+	"sync/atomic"
 	"syscall"
 	"testing"
 	"time"
@@ -107,6 +108,20 @@ func batch(t *testing.T) {
 	states := map[uint64]struct{}{}
 	t0 := time.Now()
 	idx := *fStart
+	// per-run wall-clock watchdog (real time, outside any bubble): a run that does not finish is a harness
+	// problem; the worker gives up so that the supervisor can attribute it through the journal
+	var cur atomic.Int64
+	var curStart atomic.Int64
+	go func() {
+		for {
+			time.Sleep(5 * time.Second)
+			st := curStart.Load()
+			if st != 0 && time.Now().UnixNano()-st > int64(240*time.Second) {
+				fmt.Fprintf(os.Stderr, "WATCHDOG: plan %d has been running for more than 240 s of wall time\n", cur.Load())
+				os.Exit(3)
+			}
+		}
+	}()
 	for n := 0; n < *fCount; n++ {
 		if *fWall > 0 && time.Since(t0).Seconds() > *fWall {
 			break
@@ -117,6 +132,8 @@ func batch(t *testing.T) {
 		}
 		p := e.Gen(run.RunSeed(*fSeed, idx), idx, *fTier)
 		p.Free = *fFree
+		cur.Store(int64(idx))
+		curStart.Store(time.Now().UnixNano())
 		r := run.Execute(t, p, false)
 		if !*fFree && *fRecheck > 0 && n%*fRecheck == 0 {
 			r2 := run.Execute(t, p, false)
@@ -154,6 +171,7 @@ func batch(t *testing.T) {
 		}
 		idx += *fStride
 	}
+	curStart.Store(0)
 	sum.NextIndex = idx
 	for d := range digNT {
 		sum.Digests = append(sum.Digests, d)
